@@ -118,7 +118,7 @@ impl<'a> Shrinker<'a> {
             c.schedule = c
                 .schedule
                 .iter()
-                .filter_map(|s| match *s {
+                .filter_map(|s| match s.clone() {
                     Step::M(m) if m == i => None,
                     Step::M(m) if m > i => Some(Step::M(m - 1)),
                     s => Some(s),
